@@ -462,8 +462,11 @@ def jobs(tier):
     from harness import C04_filename
 
     js += C04_filename.jobs(tier)
-    from harness import C02
+    from harness import C02, C14
 
+    # bitmap formats: the image must be filed under the glyph the code points lead to
+    for fmt in ("cbdt", "sbix"):
+        js.append(Job(f"metrics[{fmt},square,upem=1024,F=1200,h=128]", C14.job_metrics, upem=1024, F=1200, h=128, mode="square", fmt=fmt))
     for sc in C02.SCENARIOS:
         if sc.startswith("reuse across glyphs") or sc.startswith("three unrelated"):
             js.append(Job(f"svg docs[{sc}]", C02.job_docs, scenario=sc, affine="translation"))
